@@ -163,7 +163,7 @@ func verifC12GenerateID() {
 	verifrt.Assert(id != zero, "generated-id-is-never-the-zero-id")
 	verifrt.Assert(f.lastID > before, "generated-id-is-above-every-earlier-id")
 	verifrt.Assert(id == f.lastID.Hex(), "returned-id-is-the-one-the-generator-recorded")
-	verifrt.Reach("publish-waited-for-a-fresh-id", verifC12Sleeps > 0)
+	verifrt.Reach("sym:publish-waited-for-a-fresh-id", verifC12Sleeps > 0) // the sleep counter only exists under the executor
 	verifrt.Reach("fresh-id-at-once", verifC12Sleeps == 0)
 	if !verifrt.Symbolic() {
 		t.Close()
